@@ -36,7 +36,7 @@ std::vector<std::vector<bool>> c20Dependence(const GtModel &gt);
 // else breaks); why (optional) names the reason when it cannot.
 bool c20CanUnderconstrain(const GtModel &gt, int cls, std::string *why = nullptr);
 
-// Removes the definition (initial value of a constant, defining equation of a computed constant / algebraic variable,
+// Removes the definition (initial value of a constant or of a state, defining equation of a computed constant / algebraic variable,
 // the single equation of a one-unknown NLA system without initial guess) of the given classes from gt.spec. The ground
 // truth values are left alone. Returns false when an equation could not be located.
 bool c20Underconstrain(GtModel &gt, const std::vector<int> &classes);
